@@ -9,7 +9,10 @@
    first/middle/last segments of another family, with and without a width operand, 0..49 stems;
    single deltas of exactly 32767/32768/32769/63999/64000 as move, line, curve start/end) and the
    width sweep (Type2GlyphWidths.cfg: fonts of 1..3 glyphs, all assignments of 0 / negative /
-   negative fractional / fractional widths),
+   negative fractional / fractional widths), the width-selection sweep (Type2GlyphWidthSel.cfg: TLC
+   classifies every width sequence by the special value the encoder's selection rule lands on) and
+   the operand-value sweep (a full operator of every form with a two-slot / five-byte number at
+   every operand position 1..48),
    and TLC -simulate generates fonts (1..8 glyph descriptions each) from boundary deltas that
    make every operator form reachable (h/v zero patterns, flex-compatible pairs, runs across the
    48-operand limit, 0..96 stems, masks first / in the middle, equal / unequal / fractional
@@ -216,7 +219,7 @@ def _fonts(ctx, cfgname, n, label, subs=()):
     if res.violated:
         raise vlib.Infra("%s: GlyphGen violates %s -- the spec is wrong, not the code:\n%s"
                          % (label, res.violated, res.error_text[:1500]))
-    if len(res.cases) < (1000 if n is None else n // 2):
+    if len(res.cases) < (100 if n is None else n // 2):
         raise vlib.Infra("%s produced only %d fonts" % (label, len(res.cases)))
     if n is None:      # an enumeration reaches the same font through several initial states
         seen, uniq = set(), []
@@ -262,6 +265,12 @@ def run(ctx):
         # enumerated: fonts of 1..3 outline-less glyphs, every assignment of boundary widths
         # (0, negative, negative fractional, fractional) -- Type2GlyphWidths.cfg
         ("width sweep (enumerated)", "Type2GlyphWidths.cfg", (), "Type2TraceFine.cfg", None),
+        # enumerated: every width sequence of 1..4 glyphs over {-1000,-107,0,107,500}; TLC labels the special
+        # values the encoder's selection rule lands on (nominal 0, clamps, default 0 / = nominal, ...)
+        ("width-selection sweep (enumerated)", "Type2GlyphWidthSel.cfg", (), "Type2Trace.cfg", None),
+        # enumerated: a full operator of every form with one five-byte 16.16 operand at position p
+        ("operand-value sweep, fractional (enumerated)", "Type2GlyphSweepFine.cfg",
+         [("ValuePos <- AllPos", "ValuePos <- SomePos")] if ctx.quick() else (), "Type2TraceFine.cfg", None),
         ("integer glyphs", "Type2GlyphGen.cfg", (), "Type2Trace.cfg", ctx.pick(220, 2500)),
         ("integer glyphs with corner-to-corner jumps", "Type2GlyphGen.cfg", [("FarJumps = FALSE", "FarJumps = TRUE")],
          "Type2Trace.cfg", ctx.pick(40, 400)),
@@ -270,6 +279,14 @@ def run(ctx):
     for label, gcfg, subs, tcfg, n in strata:
         fonts = _fonts(ctx, gcfg, n, "GlyphGen: " + label, subs=subs)
         ctx.sample({"font_" + label.split()[0]: fonts[len(fonts) // 2]})
+        if "selection" in label:
+            seen = set(k for f in fonts for k in f.get("cls", []))
+            want = {"one glyph", "negative", "all equal", "default 0", "nominal 0", "default non-zero with nominal 0",
+                    "default equals nominal", "nominal clamped to min+107", "nominal clamped to max-107",
+                    "nominal unclamped"}
+            if want - seen:
+                raise vlib.Infra("width-selection classes TLC did not reach: %s" % sorted(want - seen))
+            ctx.cov["width_selection_classes"] = sorted(seen)
         bad = r.validate(fonts, tcfg, "Type2Trace: " + label)
         r.report(fonts, bad, tcfg, label)
 
